@@ -92,8 +92,8 @@ pub fn check_program(src: &str, widths: &[Option<usize>], cli: Option<&str>, mis
         match syn::parse_program(&text, false) {
             Ok(ast1) => {
                 if ast1 != ast0 {
+                    // the second pass below still runs: a changed tree usually shows as a moving layout too (C08)
                     mism.push(json!({"prop":"C07","src":src,"driver":name,"out":text,"obs":"formatted text parses to a different program"}));
-                    continue;
                 }
             }
             Err(m) => {
